@@ -14,7 +14,7 @@ META = {
             "vm_never_panics_text (the same from the text: whatever the front-end model accepts, shorter than 2^64 characters), vm_never_panics_partial (the earlier "
             "statement on a fragment, kept). Ties: the compiler+VM models equal the real ones on every generated case "
             "(bytecode equality, outcome incl. panic/no panic), Spec vs compiler+VM with a recovered Go panic as an outcome, every compiled program run twice "
-            "under a watchdog, the whole case list executed again in the opposite order in a second process (an outcome that depends on the cases executed "
+            "under a watchdog and a third time on a second variable map against a fresh compilation of the text (what a run leaves in the compiled program), the whole case list executed again in the opposite order in a second process (an outcome that depends on the cases executed "
             "before it = state left behind; replay = the earlier case + the case), a byte-level stream into the real parser (errors rendered).",
     "note": "vm_never_panics has the side conditions of C08.compile_correct (at least one statement — Execute indexes Instructions[0] —, lists shorter than "
             "2^64, no zero-denominator portion literal), none a restriction of the language. PARTIAL: the theorems are about the MODELS of compiler and VM "
